@@ -930,7 +930,7 @@ func TestVerifReplay(t *testing.T) {
 }
 `
 		return "core", "memstorage", src, true
-	case strings.HasPrefix(o.Name, "timed.time"):
+	case strings.HasPrefix(o.Name, "timed.time"), strings.HasPrefix(o.Name, "timed.NewPriorityQueue"):
 		src := `package timed
 
 import (
@@ -964,9 +964,143 @@ func TestVerifReplay(t *testing.T) {
 	if due := q.PopUntil(now.Add(time.Hour)); len(due) != 1 || due[0] != "soon" {
 		t.Fatalf("REPLAY-VIOLATION ascending timed queue: PopUntil(now+1h) returned %v (a deadline in 2300 is not due)", due)
 	}
+	// the order option: ascending exactly when true is passed
+	for _, opt := range [][]bool{nil, {false}, {true}} {
+		p := NewPriorityQueue[string](opt...)
+		p.Push("early", now)
+		p.Push("late", now.Add(time.Hour))
+		p.Push("middle", now.Add(time.Minute))
+		want := "late"
+		if len(opt) > 0 && opt[0] {
+			want = "early"
+		}
+		if first, _ := p.Pop(); first != want {
+			t.Fatalf("REPLAY-VIOLATION NewPriorityQueue(%v): the first element popped is %q, expected %q", opt, first, want)
+		}
+	}
 }
 `
 		return "runtime", "timed", src, true
+	case strings.HasPrefix(o.Name, "subscriptionmanager."):
+		src := `package subscriptionmanager
+
+import (
+	"fmt"
+	"math/rand"
+	"testing"
+)
+
+// model: per client a map topic -> count; the global view of a topic is the sum over the connected clients; the
+// topic / subscription events mirror the changes of that state
+func TestVerifReplay(t *testing.T) {
+	clients := []string{"A", "B", "C"}
+	topics := []string{"t", "u", "v", "w"}
+	for _, limit := range []int{0, 2, 3} {
+		for seed := int64(1); seed <= 40; seed++ {
+			rng := rand.New(rand.NewSource(seed))
+			m := New[string, string](WithMaxTopicSubscriptionsPerClient[string, string](limit), WithCleanupThresholdCount[string, string](1), WithCleanupThresholdRatio[string, string](0.1))
+			model := map[string]map[string]int{}
+			global := map[string]bool{} // topics announced by TopicAdded and not yet by TopicRemoved
+			subEvents := map[string]int{}
+			var hist []string
+			m.Events().TopicAdded.Hook(func(e *TopicEvent[string]) {
+				if global[e.Topic] {
+					t.Fatalf("REPLAY-VIOLATION SubscriptionManager(limit %d) %v: TopicAdded(%s) for a topic that is already announced", limit, hist, e.Topic)
+				}
+				global[e.Topic] = true
+			})
+			m.Events().TopicRemoved.Hook(func(e *TopicEvent[string]) {
+				if !global[e.Topic] {
+					t.Fatalf("REPLAY-VIOLATION SubscriptionManager(limit %d) %v: TopicRemoved(%s) for a topic that was not announced", limit, hist, e.Topic)
+				}
+				delete(global, e.Topic)
+			})
+			m.Events().TopicSubscribed.Hook(func(e *ClientTopicEvent[string, string]) { subEvents[e.ClientID+"/"+e.Topic]++ })
+			m.Events().TopicUnsubscribed.Hook(func(e *ClientTopicEvent[string, string]) {
+				subEvents[e.ClientID+"/"+e.Topic]--
+				if subEvents[e.ClientID+"/"+e.Topic] < 0 {
+					t.Fatalf("REPLAY-VIOLATION SubscriptionManager(limit %d) %v: more TopicUnsubscribed(%s, %s) events than TopicSubscribed events", limit, hist, e.ClientID, e.Topic)
+				}
+			})
+			for step := 0; step < 60; step++ {
+				c, tp := clients[rng.Intn(len(clients))], topics[rng.Intn(len(topics))]
+				switch op := rng.Intn(10); {
+				case op == 0:
+					hist = append(hist, "Connect("+c+")")
+					m.Connect(c)
+					model[c] = map[string]int{}
+				case op == 1:
+					hist = append(hist, "Disconnect("+c+")")
+					_, was := model[c]
+					if got := m.Disconnect(c); got != was {
+						t.Fatalf("REPLAY-VIOLATION SubscriptionManager(limit %d) %v: Disconnect returned %v", limit, hist, got)
+					}
+					delete(model, c)
+				case op <= 6:
+					hist = append(hist, "Subscribe("+c+","+tp+")")
+					got := m.Subscribe(c, tp)
+					want := false
+					if cm, ok := model[c]; ok {
+						_, held := cm[tp]
+						if !held && limit != 0 && len(cm)+1 >= limit {
+							delete(model, c) // dropped at the limit
+						} else {
+							cm[tp]++
+							want = true
+						}
+					}
+					if got != want {
+						t.Fatalf("REPLAY-VIOLATION SubscriptionManager(limit %d) %v: Subscribe returned %v, expected %v", limit, hist, got, want)
+					}
+				default:
+					hist = append(hist, "Unsubscribe("+c+","+tp+")")
+					got := m.Unsubscribe(c, tp)
+					want := false
+					if cm, ok := model[c]; ok && cm[tp] > 0 {
+						want = true
+						if cm[tp]--; cm[tp] == 0 {
+							delete(cm, tp)
+						}
+					}
+					if got != want {
+						t.Fatalf("REPLAY-VIOLATION SubscriptionManager(limit %d) %v: Unsubscribe returned %v, expected %v", limit, hist, got, want)
+					}
+				}
+				live := 0
+				for _, tp := range topics {
+					sum := 0
+					for c, cm := range model {
+						sum += cm[tp]
+						if m.ClientSubscribedToTopic(c, tp) != (cm[tp] > 0) {
+							t.Fatalf("REPLAY-VIOLATION SubscriptionManager(limit %d) %v: ClientSubscribedToTopic(%s, %s) = %v, the client holds %d subscriptions", limit, hist, c, tp, !(cm[tp] > 0), cm[tp])
+						}
+					}
+					if sum > 0 {
+						live++
+					}
+					if m.TopicHasSubscribers(tp) != (sum > 0) {
+						t.Fatalf("REPLAY-VIOLATION SubscriptionManager(limit %d) %v: TopicHasSubscribers(%s) = %v, but the connected clients hold %d subscriptions of it", limit, hist, tp, !(sum > 0), sum)
+					}
+					if global[tp] != (sum > 0) {
+						t.Fatalf("REPLAY-VIOLATION SubscriptionManager(limit %d) %v: the TopicAdded / TopicRemoved events say topic %s is announced = %v, but the connected clients hold %d subscriptions of it", limit, hist, tp, global[tp], sum)
+					}
+				}
+				if m.TopicsSize() != live || m.SubscribersSize() != len(model) {
+					t.Fatalf("REPLAY-VIOLATION SubscriptionManager(limit %d) %v: TopicsSize %d / SubscribersSize %d, expected %d / %d", limit, hist, m.TopicsSize(), m.SubscribersSize(), live, len(model))
+				}
+				for k, n := range subEvents {
+					var c, tp string
+					fmt.Sscanf(k, "%1s/%1s", &c, &tp)
+					if n != model[c][tp] {
+						t.Fatalf("REPLAY-VIOLATION SubscriptionManager(limit %d) %v: TopicSubscribed minus TopicUnsubscribed events of %s is %d, the client holds %d", limit, hist, k, n, model[c][tp])
+					}
+				}
+			}
+		}
+	}
+}
+`
+		return "web", "subscriptionmanager", src, true
 	case strings.HasPrefix(o.Name, "walker.Walker."):
 		src := `package walker
 
